@@ -10,6 +10,7 @@ CONSTANTS
  Starts <- Starts{lat}
  MaxDepth = {depth}
  RestCap = {sys.argv[4]}
+ Cap = {sys.argv[5]}
 INVARIANT TypeOK
 INVARIANT InvEta
 INVARIANT InvDet
